@@ -119,10 +119,13 @@ struct HStats {
 fn bfs(ctx: &Ctx, initial: &[String], ops: &[Op], st: &mut HStats, max_states: usize) {
     let canon = canonical(initial);
     let mut refcache: HashMap<Cfg, Result<String, String>> = HashMap::new();
-    let mut seen: HashSet<(Vec<String>, String)> = HashSet::new();
+    // key = exact real state AND reference-model state: two histories are merged only if the object states are
+    // identical and the model expects the same behaviour (a setter that silently does nothing would otherwise be
+    // merged with the history that never called it)
+    let mut seen: HashSet<((Vec<String>, String), Cfg)> = HashSet::new();
     let mut q: VecDeque<(RegExpBuilder, Cfg, Vec<String>)> = VecDeque::new();
     let b0 = RegExpBuilder::from(initial);
-    seen.insert(grex::verif::builder_state(&b0));
+    seen.insert((grex::verif::builder_state(&b0), Cfg::new(0)));
     q.push_back((b0, Cfg::new(0), vec![]));
     while let Some((b, m, hist)) = q.pop_front() {
         st.states += 1;
@@ -164,7 +167,7 @@ fn bfs(ctx: &Ctx, initial: &[String], ops: &[Op], st: &mut HStats, max_states: u
             if apply(op, &mut nb, &mut nm).is_err() {
                 continue; // a panicking build() in this state was already reported by the invariant
             }
-            let key = grex::verif::builder_state(&nb);
+            let key = (grex::verif::builder_state(&nb), nm);
             if seen.insert(key) {
                 let mut h = hist.clone();
                 h.push(op_name(op));
@@ -270,6 +273,7 @@ fn orders(ctx: &Ctx) {
     let thorough = ctx.run.is_thorough();
     let mut unis = vec![Universe::new("U_ab3{a,b}", &["a", "b"], 3, if thorough { 4 } else { 3 }, true)];
     unis.push(Universe::new("U_case{a,A,b,B}", &["a", "A", "b", "B"], 2, 3, true));
+    unis.push(Universe::new("U_mb{a,e9,b,fc}", &["a", "\u{e9}", "b", "\u{fc}"], 2, 3, false));
     if thorough {
         unis.push(Universe::new("U_adv(A_case)", A_CASE, 1, 4, true));
     }
